@@ -71,7 +71,7 @@ def Live (h : Heap) (r : Roots) (x : Nat) : Prop := Reach (schildren h) h.cells.
 def reachArr (children : Nat → List Nat) (n : Nat) (fuel : Nat) (roots : List Nat) : Option (Array Bool) :=
   markLoop id true children fuel roots (Array.replicate n false)
 
-def stotalRefs (h : Heap) : Nat := (h.cells.toList.map fun c => (srefs c).length).sum
+def stotalRefs (h : Heap) : Nat := ((List.range h.cells.size).map fun x => (schildren h x).length).sum
 
 def liveArr (h : Heap) (r : Roots) : Option (Array Bool) :=
   reachArr (schildren h) h.cells.size ((sroots r).length + stotalRefs h + 1) (sroots r)
